@@ -51,7 +51,7 @@ def gen_plain(rng, depth):
     if depth <= 0 or rng.random() < 0.35:
         return gen_scalar(rng)
     if rng.random() < 0.5:
-        return [gen_plain(rng, depth - 1) for _ in range(rng.choice((0, 1, 2, 2, 3, 4)))]
+        return [gen_plain(rng, depth - 1 if rng.random() < 0.7 else 0) for _ in range(rng.choice((0, 1, 2, 2, 3, 4, 9, 17, 40)))]
     keys = rng.sample(["a", "b", "id", "", "x y", 1, 2, (1, 2), None, -5, "0"], rng.choice((0, 1, 2, 3)))
     return {k: gen_plain(rng, depth - 1) for k in keys}
 
@@ -59,7 +59,7 @@ def gen_plain(rng, depth):
 NON_PLAIN = [(1, 2), (), {1, 2}, frozenset({1}), decimal.Decimal("1.5"), fractions.Fraction(1, 2), complex(1, 2),
              bytearray(b"x"), _uuid.UUID("5a1f2e0c-9d3b-1c7a-8f21-0123456789ab"), _uuid.UUID("5a1f2e0c-9d3b-3c7a-8f21-0123456789ab"),
              _uuid.UUID("5a1f2e0c-9d3b-5c7a-8f21-0123456789ab"), _uuid.UUID(int=0), OddValue(), ..., OddValue, range(3),
-             memoryview(b"x"), _dt.time(1, 2), _dt.timedelta(1)]
+             memoryview(b"x"), _dt.time(1, 2), _dt.timedelta(1), {...: 5}, {...: ...}, {"a": 1, ...: "x"}]
 
 
 def strict_same(a, b):
